@@ -247,7 +247,7 @@ def run(tier, seed):
     run.exhaustive = True
     for res in shard_map(work_bundled, split(names, nproc() * 4), (seed,)):
         run.merge(res)
-    ndb = 24 if tier == "quick" else 400
+    ndb = 24 if tier == "quick" else 4000
     seeds = [seed * 100003 + i for i in range(ndb)]
     for res in shard_map(work_generated, split(seeds, nproc()), (seed,)):
         run.merge(res)
